@@ -158,6 +158,7 @@ fn eval_real(e: &Expr, facts: &Value) -> Result<RRes, String> {
     }
 }
 
+/// `operands`: the ACTUAL operand values of the top node when they are known (depth-1 cases), else empty
 fn check_expr(rep: &mut Report, name: &str, e: &Expr, facts: &Value, operands: &[&Value]) {
     rep.cases += 1;
     let empty = BTreeMap::new();
@@ -174,7 +175,7 @@ fn check_expr(rep: &mut Report, name: &str, e: &Expr, facts: &Value, operands: &
                 let tags_differ = operands.len() == 2 && tag_of(operands[0]) != tag_of(operands[1]);
                 if (tags_differ && !any_none) || expected == Err(RErr::InvalidType) || obs == Err(RErr::InvalidType) { tags.push("C03"); }
                 if matches!(expected, Err(RErr::OutOfBounds) | Err(RErr::InvalidCast) | Err(RErr::DivisionByZero)) && obs.is_ok() { tags.push("C01"); }
-                if name == "index" || name == "ref" { tags.push("C10"); }
+                if name == "index" || name == "ref" { tags = vec!["C10"]; if any_none { tags.push("C04"); } }
                 rep.fail(&tags, &format!("{name}.table"), &format!("{e}   [facts = {facts}]"), &format!("{obs:?}"), &format!("{expected:?}"));
             }
         }
@@ -236,14 +237,14 @@ fn family_compose() {
                 let inner = bf(Expr::value(a.clone()), Expr::value(b.clone()));
                 for (un, uf) in &uns {
                     if matches!(*un, "some" | "none" | "not" | "neg" | "int" | "float") {
-                        check_expr(&mut rep, un, &uf(inner.clone()), &facts, &[a, b]);
+                        check_expr(&mut rep, un, &uf(inner.clone()), &facts, &[]);
                     }
                 }
                 for c in [Value::None, Value::Int(0), Value::Bool(true), Value::Float(2.5)] {
                     for (bn2, bf2) in &bins {
                         if matches!(*bn2, "mult" | "add" | "eq" | "neq" | "and" | "or" | "gt" | "contains") {
-                            check_expr(&mut rep, bn2, &bf2(Expr::value(c.clone()), inner.clone()), &facts, &[&c, a, b]);
-                            check_expr(&mut rep, bn2, &bf2(inner.clone(), Expr::value(c.clone())), &facts, &[a, b, &c]);
+                            check_expr(&mut rep, bn2, &bf2(Expr::value(c.clone()), inner.clone()), &facts, &[]);
+                            check_expr(&mut rep, bn2, &bf2(inner.clone(), Expr::value(c.clone())), &facts, &[]);
                         }
                     }
                 }
@@ -345,6 +346,39 @@ fn run_model(rules: &[(String, Expr)], symbols: &BTreeMap<String, Value>, facts:
     (out, st.log)
 }
 
+fn mentions(e: &Expr, f: &dyn Fn(&Expr) -> bool) -> bool {
+    if f(e) { return true; }
+    use Expr::*;
+    match e {
+        Value(_) | Reference(_) | Symbol(_) => false,
+        Function(_, x) | Index(x, _) | Not(x) | Neg(x) | Some(x) | None(x) | Int(x) | Float(x) | Dec(x) | DateTime(x) | Duration(x)
+        | UpperCase(x) | LowerCase(x) | Trim(x) | Floor(x) | Round(x) | Fract(x) | Year(x) | Month(x) | Week(x) | Day(x) | Hour(x)
+        | Minute(x) | Second(x) => mentions(x, f),
+        If(a, b, c) => mentions(a, f) || mentions(b, f) || mentions(c, f),
+        Map(m) => m.values().any(|x| mentions(x, f)),
+        Vec(v) => v.iter().any(|x| mentions(x, f)),
+        Mult(a, b) | Div(a, b) | Rem(a, b) | Add(a, b) | Sub(a, b) | Equals(a, b) | NotEquals(a, b) | GreaterThan(a, b)
+        | GreaterThanEquals(a, b) | LessThan(a, b) | LessThanEquals(a, b) | And(a, b) | Or(a, b) | BitAnd(a, b) | BitOr(a, b)
+        | BitXor(a, b) | Contains(a, b) => mentions(a, f) || mentions(b, f),
+    }
+}
+
+/// which property does a wrong outcome of rule `k` witness?
+fn attribute(rules: &[(String, Expr)], k: usize, family_default: &[&'static str]) -> Vec<&'static str> {
+    let e = &rules[k].1;
+    let calls = mentions(e, &|x| matches!(x, Expr::Function(_, _)));
+    let cacheable_calls = mentions(e, &|x| matches!(x, Expr::Function(n, _) if n != "probe" && n != "count_nc"));
+    let lookups = mentions(e, &|x| matches!(x, Expr::Reference(_) | Expr::Symbol(_) | Expr::Index(_, _)));
+    let mut t: Vec<&'static str> = vec![];
+    if cacheable_calls || mentions(e, &|x| matches!(x, Expr::Function(n, _) if n == "undefined_fn")) { t.push("C11"); }
+    if calls && !cacheable_calls { t.push("C05"); }
+    if lookups && !calls { t.push("C10"); }
+    if !calls && !lookups { t.push("C02"); }
+    if rules.len() > 1 && k > 0 && calls { t.push("C09"); } // outcome depends on what earlier rules did
+    for d in family_default { if t.is_empty() { t.push(d); } }
+    t
+}
+
 fn check_scenario(rep: &mut Report, what: &str, tags: &[&str], rules: Vec<(String, Expr)>, symbols: &BTreeMap<String, Value>, facts: &Value) {
     rep.cases += 1;
     let desc = format!("{what}: rules = [{}]  facts = {facts}", rules.iter().map(|(n, e)| format!("{n}: {e}")).collect::<Vec<_>>().join(" ; "));
@@ -354,22 +388,27 @@ fn check_scenario(rep: &mut Report, what: &str, tags: &[&str], rules: Vec<(Strin
         Ok(runs) => {
             for (k, run) in runs.iter().enumerate() {
                 match &run.outcomes {
-                    Err(e) => { rep.fail(&[tags, &["C09"]].concat(), "evaluate_value.ok", &desc, e, "Ok(outcomes)"); return; }
+                    Err(e) => { rep.fail(&["C09"], "evaluate_value.ok", &desc, e, "Ok(outcomes)"); return; }
                     Ok(os) => {
                         let names_ok = os.len() == exp_out.len() && os.iter().zip(&exp_out).all(|(a, b)| a.0 == b.0);
                         if !names_ok {
-                            rep.fail(&[tags, &["C09"]].concat(), "evaluate_value.len", &desc, &format!("evaluation #{k}: outcome rules {:?}", os.iter().map(|o| &o.0).collect::<Vec<_>>()),
+                            rep.fail(&["C09"], "evaluate_value.len", &desc, &format!("evaluation #{k}: outcome rules {:?}", os.iter().map(|o| &o.0).collect::<Vec<_>>()),
                                      &format!("{:?}", exp_out.iter().map(|o| &o.0).collect::<Vec<_>>()));
                             return;
                         }
-                        for (a, b) in os.iter().zip(&exp_out) {
+                        for (idx, (a, b)) in os.iter().zip(&exp_out).enumerate() {
                             if !same_res(&a.1, &b.1) {
-                                rep.fail(tags, "outcome", &desc, &format!("evaluation #{k}: rule {} = {:?}", a.0, a.1), &format!("{:?}", b.1));
+                                let mut t = attribute(&rules, idx, &["C02"]);
+                                if k > 0 && !t.contains(&"C11") { t.push("C11"); } // differs only in a later evaluation: something was remembered
+                                if tags.contains(&"C05") && !t.contains(&"C02") { t.push("C02"); }
+                                rep.fail(&t, "outcome", &desc, &format!("evaluation #{k}: rule {} = {:?}", a.0, a.1), &format!("{:?}", b.1));
                                 return;
                             }
                         }
                         if run.log != exp_log {
-                            rep.fail(tags, "invocation-history", &desc, &format!("evaluation #{k}: calls {:?}", run.log.iter().map(|c| format!("{}({})", c.name, c.arg)).collect::<Vec<_>>()),
+                            let cacheable = rules.iter().any(|(_, e)| mentions(e, &|x| matches!(x, Expr::Function(n, _) if n != "probe" && n != "count_nc")));
+                            let t: &[&str] = if cacheable { &["C11"] } else { &["C05"] };
+                            rep.fail(t, "invocation-history", &desc, &format!("evaluation #{k}: calls {:?}", run.log.iter().map(|c| format!("{}({})", c.name, c.arg)).collect::<Vec<_>>()),
                                      &format!("{:?}", exp_log.iter().map(|c| format!("{}({})", c.name, c.arg)).collect::<Vec<_>>()));
                             return;
                         }
